@@ -17,10 +17,12 @@ import tempfile
 
 HERE = os.path.dirname(os.path.dirname(os.path.abspath(__file__)))
 ALL = ["C%02d" % i for i in range(1, 21)]
+EVDIR = tempfile.mkdtemp(prefix="seeded_ev_", dir="/dev/shm" if os.path.isdir("/dev/shm") else None)
+os.makedirs(os.path.join(EVDIR, "replays"), exist_ok=True)
 
 
 def run_check(prop, tier, seed, repo):
-    env = dict(os.environ, VERIF_SEED=str(seed), VERIF_REPO=repo)
+    env = dict(os.environ, VERIF_SEED=str(seed), VERIF_REPO=repo, VERIF_EVIDENCE_DIR=EVDIR)
     p = subprocess.run(["/venv/bin/python", os.path.join(HERE, "check.py"), prop, "--tier", tier], cwd=HERE, env=env,
                        stdout=subprocess.PIPE, stderr=subprocess.STDOUT, timeout=7200)
     out = p.stdout.decode("utf8", "replace")
@@ -76,6 +78,15 @@ def main():
             subprocess.run(["git", "-C", "/repo", "checkout", "--", "."], check=True)
         if tmp:
             shutil.rmtree(tmp, ignore_errors=True)
+        shutil.rmtree(EVDIR, ignore_errors=True)
+    rj = os.path.join(sdir, "result.json")
+    if os.path.isfile(rj) and not a.target.endswith(".diff"):
+        # results of checks not run this time are kept
+        try:
+            old = json.load(open(rj)).get("results", {})
+            results = dict(old, **results)
+        except Exception:
+            pass
     caught = [c for c, v in results.items() if any(x["exit"] == 1 for x in v)]
     print("CAUGHT BY:", ",".join(caught) or "-")
     if os.path.isdir(sdir) and not a.target.endswith(".diff"):
